@@ -18,6 +18,7 @@ mod fam_hexcol;
 mod fam_edit;
 mod fam_chg;
 mod fam_txn;
+mod fam_marks;
 mod gen;
 mod model;
 
@@ -51,6 +52,7 @@ fn main() {
         "edit" => fam_edit::run(&mut rng, &tier, out),
         "chg" => fam_chg::run(&mut rng, &tier, out),
         "txn" => fam_txn::run(&mut rng, &tier, out),
+        "marks" => fam_marks::run(&mut rng, &tier, out),
         _ => {
             eprintln!("unknown family {}", fam);
             std::process::exit(2);
